@@ -144,7 +144,7 @@ Lemma reduce_acc_keeps rs : forall acc out,
 Proof.
   induction rs as [|r rs IH]; intros acc out H; cbn [reduce_acc] in H.
   - injection H as <-. split; [intros r []|]. intros x Hx; exists x; split; [exact Hx|apply stronger_refl].
-  - destruct (upsert (safe_name (rname r)) r acc) as [acc'|] eqn:Hu; [|discriminate].
+  - destruct (upsert (norm (safe_name (rname r))) r acc) as [acc'|] eqn:Hu; [|discriminate].
     destruct (upsert_keeps _ _ _ _ Hu) as [[m [Hin Hs]] Hold].
     destruct (IH _ _ H) as [Hrs Hacc]. split.
     + intros x [<-|Hx]; [|apply Hrs; exact Hx].
@@ -158,6 +158,70 @@ Lemma reduce_keeps_bounds rs out :
 Proof.
   unfold reduce. destruct (reduce_acc rs []) as [acc|] eqn:H; [|discriminate].
   intros [= <-] r Hr. destruct (reduce_acc_keeps _ _ _ H) as [Hrs _]. apply Hrs; exact Hr.
+Qed.
+
+(* ---- reduce keeps ONE requirement per project, whatever the spelling and the order ---- *)
+Lemma upsert_keys k r acc acc' :
+  upsert k r acc = Ok acc' ->
+  (forall k0, In k0 (map fst acc') <-> k0 = k \/ In k0 (map fst acc)) /\
+  (NoDup (map fst acc) -> NoDup (map fst acc')) /\
+  (exists m, In (k, m) acc' /\ stronger m r) /\
+  (forall k0 x, In (k0, x) acc -> exists m, In (k0, m) acc' /\ stronger m x).
+Proof.
+  revert acc'; induction acc as [|[k' r'] acc IH]; intros acc' H; cbn [upsert] in H.
+  - injection H as <-. cbn. repeat split.
+    + intros [H|[]]; left; symmetry; exact H.
+    + intros [H|[]]; left; symmetry; exact H.
+    + intros _. constructor; [intros []|constructor].
+    + exists r. split; [left; reflexivity|apply stronger_refl].
+    + intros k0 x [].
+  - destruct (String.eqb k k') eqn:E.
+    + apply String.eqb_eq in E; subst k'.
+      destruct (merge (Some r') (Some r)) as [m|] eqn:Hm; [|discriminate].
+      injection H as <-. destruct (merge_stronger _ _ _ Hm) as [S1 S2]. cbn [map fst]. repeat split.
+      * intros Hin. right. exact Hin.
+      * intros [->|Hin]; [left; reflexivity|exact Hin].
+      * auto.
+      * exists m. split; [left; reflexivity|exact S2].
+      * intros k0 x [Hx|Hx]; [injection Hx as <- <-; exists m; split; [left; reflexivity|exact S1]|].
+        exists x. split; [right; exact Hx|apply stronger_refl].
+    + destruct (upsert k r acc) as [acc''|] eqn:Hu; [|discriminate].
+      injection H as <-. destruct (IH _ eq_refl) as [Hkeys [Hnd [[m [Hin Hs]] Hold]]]. cbn [map fst]. repeat split.
+      * intros [Hx|Hx]; [right; left; exact Hx|]. apply Hkeys in Hx. destruct Hx as [Hx|Hx]; [left; exact Hx|right; right; exact Hx].
+      * intros [Hx|[Hx|Hx]]; [right; apply Hkeys; left; exact Hx|left; exact Hx|right; apply Hkeys; right; exact Hx].
+      * intros Hn. inversion Hn as [|? ? Hnin Hn']; subst. constructor; [|apply Hnd; exact Hn'].
+        intros Hx. apply Hkeys in Hx. destruct Hx as [Hx|Hx]; [subst k'; rewrite String.eqb_refl in E; discriminate|contradiction].
+      * exists m. split; [right; exact Hin|exact Hs].
+      * intros k0 x [Hx|Hx]; [injection Hx as <- <-; exists r'; split; [left; reflexivity|apply stronger_refl]|].
+        destruct (Hold k0 x Hx) as [m' [Hin' Hs']]. exists m'. split; [right; exact Hin'|exact Hs'].
+Qed.
+
+Lemma reduce_acc_one_per_project rs : forall acc out,
+  reduce_acc rs acc = Ok out -> NoDup (map fst acc) ->
+  NoDup (map fst out) /\
+  (forall r, In r rs -> exists m, In (norm (safe_name (rname r)), m) out /\ stronger m r) /\
+  (forall k x, In (k, x) acc -> exists m, In (k, m) out /\ stronger m x).
+Proof.
+  induction rs as [|r rs IH]; intros acc out H Hnd; cbn [reduce_acc] in H.
+  - injection H as <-. split; [exact Hnd|]. split; [intros r []|]. intros k x Hx. exists x. split; [exact Hx|apply stronger_refl].
+  - destruct (upsert (norm (safe_name (rname r))) r acc) as [acc'|] eqn:Hu; [|discriminate].
+    destruct (upsert_keys _ _ _ _ Hu) as [_ [Hnd' [[m [Hin Hs]] Hold]]].
+    destruct (IH _ _ H (Hnd' Hnd)) as [Hndo [Hrs Hacc]]. split; [exact Hndo|]. split.
+    + intros x [<-|Hx]; [|apply Hrs; exact Hx].
+      destruct (Hacc _ _ Hin) as [m' [Hin' Hs']]. exists m'. split; [exact Hin'|eapply stronger_trans; eassumption].
+    + intros k x Hx. destruct (Hold k x Hx) as [m1 [Hin1 Hs1]]. destruct (Hacc _ _ Hin1) as [m2 [Hin2 Hs2]].
+      exists m2. split; [exact Hin2|eapply stronger_trans; eassumption].
+Qed.
+
+(* the requirements a distribution places on one project - however the project is spelled in each of them and in
+   whatever order they are listed - are reduced to ONE requirement, found under the project's normalised name,
+   that is at least as strong as each of them *)
+Theorem reduce_one_per_project rs acc :
+  reduce_acc rs [] = Ok acc ->
+  NoDup (map fst acc) /\
+  forall r, In r rs -> exists m, In (norm (safe_name (rname r)), m) acc /\ stronger m r.
+Proof.
+  intros H. destruct (reduce_acc_one_per_project rs [] acc H ltac:(constructor)) as [Hnd [Hrs _]]. auto.
 Qed.
 
 (* the generated chain must make norm idempotent on PEP 508 characters: checked on a
